@@ -93,7 +93,9 @@ fn negative_control(cx: &mut CaseCtx, prop: &str, kind: Kind, obs: &[u8], rt: &R
         }
         "C04" => {
             let mut k = r.usize_below(bad.len());
-            if judge::masked(kind, k) {
+            // never a masked byte; and never the Length field of a CEDT that carries the known
+            // RDPAS deviation (a flipped Length bit could make that Length *correct*)
+            if judge::masked(kind, k) || (kind == Kind::Cedt && rt.rdpas > 0 && (4..8).contains(&k)) {
                 k = 0;
             }
             bad[k] ^= 1 << r.below(8);
@@ -133,7 +135,7 @@ fn observe_policy(step: usize, total: usize, count: usize, prev_len: usize, new_
         return true;
     }
     // the byte just below a carry of the length field's low bytes
-    if new_len % 256 < 48 && (new_len / 256) % 64 == 0 {
+    if new_len < (1 << 20) && new_len % 256 < 48 && (new_len / 256) % 64 == 0 {
         return true;
     }
     step % stride == 0
@@ -210,6 +212,9 @@ pub fn run_prog(cx: &mut CaseCtx, p: &Prog, stride: usize) {
         }
         if new_len >= 65536 && prev_len < 65536 {
             cx.rep.cov("boundary:length_carry_0xffff");
+        }
+        if new_len >= 1 << 24 && prev_len < 1 << 24 {
+            cx.rep.cov("boundary:length_carry_0xffffff");
         }
         if step > 0 && count == 256 && p.kind.has_body() {
             cx.rep.cov("boundary:count_carry_0xff");
@@ -428,6 +433,34 @@ pub fn run(cfg: &Cfg) -> Report {
         let p = sweep_prog(kind, &mut r, 300, cx.idx % 2 == 1, 40);
         run_prog(cx, &p, 1);
     }));
+    // every entry kind in the role of "the entry that crosses the carry": fill with the smallest
+    // entry to just below a count/length carry, then a handful of operations of every kind
+    let targets: Vec<(&str, u64)> = if thorough { vec![("count255", 253), ("len256", 0), ("len64k", 1), ("count65536", 65_533)] } else { vec![("count255", 253), ("len256", 0), ("len64k", 1)] };
+    let variants = if thorough { 96u64 } else { 24 };
+    let nsk = sweep_kinds.len() as u64;
+    let ntg = targets.len() as u64;
+    rep.merge(par_cases(cfg, "tables.carry_kinds", nsk * ntg * variants, |cx| {
+        let kind = sweep_kinds[(cx.idx % nsk) as usize];
+        let (tname, tval) = targets[((cx.idx / nsk) % ntg) as usize];
+        if kind == Kind::Rqsc && tname == "count65536" {
+            return; // quadratic checksum: covered once by tables.sweepcount64k
+        }
+        let mut r = cx.rng.clone();
+        let es = sweep_entry_size(kind).max(1) as u64;
+        let first = crate::tables::walk::first_entry(kind).min(64) as u64;
+        let n0 = match tname {
+            "len256" => (256u64.saturating_sub(first)) / es,
+            "len64k" => (65_536 - first) / es - 1,
+            _ => tval,
+        };
+        if kind == Kind::Viot && n0 * 16 + 48 + 200 > 65_535 {
+            return; // a VIOT cannot grow that far (16-bit node offsets)
+        }
+        let jitter = r.below(3);
+        let p = sweep_prog(kind, &mut r, n0.saturating_sub(jitter), false, 10);
+        run_prog(cx, &p, 100_003);
+        cx.rep.cov(&format!("carry_target:{}", tname));
+    }));
     // length 65535->65536 (quick: for every kind; long programs observed in windows)
     rep.merge(par_cases(cfg, "tables.sweep64k", n_sweep, |cx| {
         let kind = sweep_kinds[(cx.idx / 2) as usize];
@@ -455,6 +488,30 @@ pub fn run(cfg: &Cfg) -> Report {
         let p = sweep_prog(kind, &mut r, 65_500, false, 200);
         run_prog(cx, &p, 4099);
     }));
+    // Length carry 2^24-1 -> 2^24 (third Length byte), thorough tier only: 16 MiB tables
+    if thorough && cfg.scale_pct >= 100 {
+        let big: Vec<Kind> = [Kind::Xsdt, Kind::Mcfg, Kind::Madt, Kind::Hest, Kind::Sdt].into_iter().filter(|k| kinds.contains(k)).collect();
+        rep.merge(par_cases(cfg, "tables.sweep16m", big.len() as u64, |cx| {
+            let kind = big[cx.idx as usize];
+            let mut r = cx.rng.clone();
+            let p = if kind == Kind::Sdt {
+                let mut ops: Vec<Op> = (0..16).map(|_| Op::Sdt(SdtOp::AppendSlice(vec![0x3C; 1_000_000]))).collect();
+                ops.push(Op::Sdt(SdtOp::AppendSlice(vec![0xC3; 777_000])));
+                let mut st = GenState { sdt_len: 16_777_036, ..Default::default() };
+                for i in 0..260 {
+                    if let Some(o) = sweep_op(Kind::Sdt, &mut r, &mut st, i) {
+                        ops.push(o);
+                    }
+                }
+                Prog { kind, hdr: gen_hdr(&mut r), ctor: Ctor::Sdt { sig: *b"BIG_", len: 36, rev: 1 }, ops }
+            } else {
+                let es = sweep_entry_size(kind) as u64;
+                sweep_prog(kind, &mut r, (1 << 24) / es - 30, false, 120)
+            };
+            run_prog(cx, &p, 16381);
+            cx.rep.cov("boundary:length_carry_0xffffff_program");
+        }));
+    }
     rep
 }
 
